@@ -97,6 +97,7 @@ func run(seed int64, n int, dir string, _ []string) {
 	failedReload(o, scratch)
 	failedCommit(o, scratch)
 	freshAfterEnd(o, scratch)
+	nonData(o, scratch)
 	vs := variants()
 	// the seed rotates the list (every variant runs on every seed; n caps the number for debugging)
 	for i := 0; i < len(vs) && (n <= 0 || i < n); i++ {
